@@ -137,6 +137,14 @@ def judge(case):
             got = [str(x) for x in back if x]
             if got != [x for x in ls if x]:
                 fails.append(Failure("C06.lines", "library-lines-unfold-differs", f"{got[:2]!r}"[:300]))
+        elif kind == "parts":
+            # a content line assembled from name, parameters and value - each of the three may be the only non-ASCII part
+            from icalendar.parser import Parameters
+            from icalendar.prop import vText
+            cl = Contentline.from_parts(case["name"], Parameters(case["params"]), vText(case["value"]), sorted=case.get("sorted", True))
+            s_ = str(cl)
+            if "\n" not in s_ and "\r" not in s_:
+                fails += check_folded(s_, cl.to_ical(), "C06.parts")
         elif kind == "component":
             cal = Calendar()
             ev = Event()
@@ -174,6 +182,8 @@ def _strings(case):
         return [case["s"]]
     if case["kind"] == "lines":
         return case["lines"]
+    if case["kind"] == "parts":
+        return [f"{case['name']}:{case['value']}"]
     return [f"{n}:{v}" for n, v, p in case["props"]]
 
 
@@ -263,13 +273,16 @@ def mixed_line(draw, lead="X"):
 
 
 def _hyp():
-    names = st.sampled_from(["summary", "description", "x-long-property-name-" + "z" * 40, "location", "comment"])
+    names = st.sampled_from(["summary", "description", "x-long-property-name-" + "z" * 40, "location", "comment", "x-pr\u00e9nom", "X-\u00c4-LABEL", "x-\u540d\u524d", "X-\U0001F600"])
     pvals = st.dictionaries(st.sampled_from(["X-P", "LANGUAGE", "ALTREP"]), mixed_line(lead="v").map(lambda s: s.replace('"', "")[:90].replace("\r", "")), max_size=2)
     props = st.lists(st.tuples(names, mixed_line(lead=""), pvals).map(list), min_size=1, max_size=4)
     return st.one_of(
         mixed_line(lead="").map(lambda s: {"kind": "line", "s": s}),
         st.lists(mixed_line(), min_size=1, max_size=5).map(lambda ls: {"kind": "lines", "lines": ls}),
         props.map(lambda p: {"kind": "component", "props": p}),
+        st.builds(lambda n_, v_, pv, so: {"kind": "parts", "name": n_, "value": v_, "params": pv, "sorted": so}, names,
+                  st.one_of(mixed_line(lead=""), st.integers(0, 300).map(lambda k: "abcdefghij" * (k // 10) + "x" * (k % 10))),
+                  st.one_of(st.just({}), pvals), st.booleans()),
     )
 
 
